@@ -12,7 +12,19 @@ use std::panic::{catch_unwind, AssertUnwindSafe};
 use suiron::Unifiable;
 
 fn kinds() -> Vec<T> {
-    vec![atom("a"), T::Int(1), var(1, "$X"), T::Anon, list(vec![]), list(vec![atom("b")]), cplx("f", vec![atom("a")]), T::Float(1.5)]
+    vec![
+        atom("a"),
+        T::Int(1),
+        var(1, "$X"),
+        T::Anon,
+        list(vec![]),
+        list(vec![atom("b")]),
+        cplx("f", vec![atom("a")]),
+        T::Float(1.5),
+        // nesting three deep of the same bracket kind, with a sibling before the innermost term
+        list(vec![atom("b"), list(vec![atom("c"), atom("d")])]),
+        cplx("f", vec![atom("a"), cplx("g", vec![atom("b"), atom("c")])]),
+    ]
 }
 
 fn erase_ids(t: &T) -> T {
